@@ -61,7 +61,7 @@ CHECK = {
     "property": "C20",
     "props": "Props/C20.v",
     "theorems": ["c20_add_result", "c20_add_ok_iff", "c20_add_err_kind", "c20_iter_by_node",
-                 "c20_iter_by_rrset", "c20_soa_ns"],
+                 "c20_iter_by_rrset", "c20_iter_state_machine", "c20_soa_ns"],
     "allowed_axioms": [],
     "correspondence": {"impl_bin": "impl_zone", "extract": "Extract/ExZone.v", "driver": "run_zone.ml",
                        "runner_name": "zone"},
@@ -84,8 +84,7 @@ CHECK = {
         "correspondence: checks/c20.py + checks/zonegen.py generators, harness/src/bin/impl_zone.rs, ocaml/run_zone.ml, line diff in tools/qv.py",
         "tools/gen/zoneconsts.py re-extracts Type::{A,NS,CNAME,SOA,MX,AAAA}, Class::IN and Label::asterisk() from the source",
         "model abstractions (differentially tested, not proved): Name as list of labels, HashMap as association list "
-        "(iteration order unspecified: compared as sorted sets), Node::iter's explicit-stack state machine as a pre-order "
-        "recursion, RdataSetOwned as list of RDATAs, binary_search_by_key as ordered scan of the sorted Vec",
+        "(iteration order unspecified: compared as sorted sets), RdataSetOwned as list of RDATAs, binary_search_by_key as ordered scan of the sorted Vec",
         "Rdata::equals is a parameter of model and spec, assumed transitive; the runner uses req_simple (exact on the generated RDATA)",
     ],
     "assumptions": ["Rdata::equals is transitive for every (class, type)",
@@ -100,7 +99,7 @@ MANIFEST = {
                    "with the apex item. Model tied to the code by a differential run over 3000 add histories with the full "
                    "iteration after every step."),
     "level_note": ("Trusted: Coq kernel, extraction, the hand-written model's correspondence to the Rust code (differentially "
-                   "tested; Node::iter's state machine is modelled as a recursion), Rdata::equals abstract and transitive."),
+                   "tested), Rdata::equals abstract and transitive."),
     "technique": "machine-checked proof in Coq (abstraction invariant tree <-> flat accepted-record list, induction over the nested tree) + model/implementation correspondence check",
     "design_ref": "DESIGN.md §4 C20",
 }
